@@ -272,6 +272,31 @@ def returnedCount (s : Session σ) : Nat :=
     let reps := ((List.range' p.k p.r).filter fun e => s.encLib.get e && (s.enc.get e).isSome).length
     srcs + reps
 
+/-- of_build_repair_symbol on a configured session (`cw` is the harness's copy of the block) -/
+def buildStep (IO : SymIO σ) (s : Session σ) (p : Params) (cw : List σ) (esi : Nat) (own : Bool) : Session σ × String :=
+  let O := IO.ops s.codec p.m p.len
+  -- the harness fills the source part of the table on first use and prepares the output slot
+  let enc0 := if (s.enc.get 0).isNone then
+      (List.range p.k).foldl (fun (m : TMap (Option σ)) i => m.set i (some (cw.getD i O.zero))) s.enc
+    else s.enc
+  let inRange := p.k ≤ esi && esi < p.n
+  let enc1 := if inRange then enc0.set esi none else enc0
+  let encLib1 := if inRange then s.encLib.set esi (!own) else s.encLib
+  let s1 := { s with enc := enc1, encLib := encLib1 }
+  if !isEnc s then (s1, "ok st=FATAL")
+  else if !inRange then (s1, "ok st=ERROR")
+  else
+    let src := (List.range p.k).map fun i => (enc1.get i).getD O.zero
+    if s.codec == 3 then
+      let row := s.H.getD (esi - p.k) []
+      if row.any (fun e => e != esi && (enc1.get e).isNone) then (s1, "ok st=ERROR")
+      else
+        let v := row.foldl (fun acc e => if e == esi then acc else O.add acc ((enc1.get e).getD O.zero)) O.zero
+        ({ s1 with enc := enc1.set esi (some v) }, s!"ok st=OK sym={IO.hex v} prov={if own then "app" else "lib"}")
+    else
+      let v := RS.encode (fldOf s.codec p.m) O p.k src esi
+      ({ s1 with enc := enc1.set esi (some v) }, s!"ok st=OK sym={IO.hex v} prov={if own then "app" else "lib"}")
+
 def step (IO : SymIO σ) (w : World σ) (op : Op) : World σ × String :=
   let bad := (w, "bad-op")
   let put (sid : Nat) (s : Session σ) (w : World σ) : World σ := { w with ses := w.ses.set sid (some s) }
@@ -330,31 +355,7 @@ def step (IO : SymIO σ) (w : World σ) (op : Op) : World σ × String :=
     match w.ses.get sid with
     | none => bad
     | some s => match s.params, s.cw with
-      | some p, some cw =>
-        let O := IO.ops s.codec p.m p.len
-        -- the harness fills the source part of the table on first use and prepares the output slot
-        let enc0 := if (s.enc.get 0).isNone then
-            (List.range p.k).foldl (fun (m : TMap (Option σ)) i => m.set i (some (cw.getD i O.zero))) s.enc
-          else s.enc
-        let inRange := p.k ≤ esi && esi < p.n
-        let enc1 := if inRange then enc0.set esi none else enc0
-        let encLib1 := if inRange then s.encLib.set esi (!own) else s.encLib
-        let s1 := { s with enc := enc1, encLib := encLib1 }
-        if !isEnc s then (put sid s1 w, "ok st=FATAL")
-        else if !inRange then (put sid s1 w, "ok st=ERROR")
-        else
-          let src := (List.range p.k).map fun i => (enc1.get i).getD O.zero
-          if s.codec == 3 then
-            let row := s.H.getD (esi - p.k) []
-            if row.any (fun e => e != esi && (enc1.get e).isNone) then (put sid s1 w, "ok st=ERROR")
-            else
-              let v := row.foldl (fun acc e => if e == esi then acc else O.add acc ((enc1.get e).getD O.zero)) O.zero
-              (put sid { s1 with enc := enc1.set esi (some v) } w,
-               s!"ok st=OK sym={IO.hex v} prov={if own then "app" else "lib"}")
-          else
-            let v := RS.encode (fldOf s.codec p.m) O p.k src esi
-            (put sid { s1 with enc := enc1.set esi (some v) } w,
-             s!"ok st=OK sym={IO.hex v} prov={if own then "app" else "lib"}")
+      | some p, some cw => let (s', o) := buildStep IO s p cw esi own; (put sid s' w, o)
       | _, _ => bad
   | .recv sid esi null =>
     match w.ses.get sid with
